@@ -26,6 +26,8 @@ type exploreCfg struct {
 	Budget    time.Duration
 	FullViews bool // evaluate the C07 view oracles in every state
 	Roots     []string
+	// LegacyRoot adds, for follower worlds, a third root whose chain already contains a legacy hour-overflow output (C03)
+	LegacyRoot bool
 }
 
 var normalCoins = uint64(100e6 * 1e6)
@@ -57,6 +59,9 @@ func rootsOf(cfg exploreCfg, w world) []string {
 	if w.SmallTxn {
 		return append(append([]string{}, cfg.Roots...), "ladder")
 	}
+	if cfg.LegacyRoot && !w.Publisher {
+		return append(append([]string{}, cfg.Roots...), "legacy")
+	}
 	return cfg.Roots
 }
 
@@ -64,6 +69,11 @@ func seedOpsFor(w world, root string) []op {
 	switch root {
 	case "distributed":
 		return seedOps(w)
+	case "legacy":
+		// a chain that contains a "legacy" output: its hours (2^64-1, created by a block whose output-hour sum wraps - the documented
+		// tolerance) overflow as soon as it has earned anything, and one more block has passed, so that transactions spending it
+		// together with a normal output can be offered at once
+		return []op{{"block", "valid[pay-G-A]+1h"}, {"block", "bad-txn[wrap-hour-sum-max-G]"}, {"block", "valid[pay-A-B]+1h"}}
 	case "ladder":
 		// five outputs of one owner with equal hours and 1, 10, ... 10 000 coins (one block), then four of the five "ladder"
 		// spends pending: their fee per kB DEcreases while the coins INcrease, and five of them exceed the 1 KiB block, so which
